@@ -1176,6 +1176,77 @@ fn check_c05(level: u32, seed: u64) {
     let _ = count;
 }
 
+// ------------------------------------------------------------------------------------------------ C12 (bounded stand-in / witness search)
+/// inputs listed in known_findings.json for the property under search (env VERIF_KNOWN, one per line): a failure on one of them is
+/// printed as `KNOWN <json>` and the search goes on; a failure on any other input is a witness
+fn known_inputs() -> Vec<String> { std::env::var("VERIF_KNOWN").map(|s| s.split('\n').filter(|x| !x.is_empty()).map(|x| x.to_string()).collect()).unwrap_or_default() }
+fn report(prop: &str, check: &str, input: String, detail: String) {
+    if known_inputs().iter().any(|k| *k == input) {
+        let esc = |s: &str| s.replace('\\', "\\\\").replace('"', "\\\"");
+        println!("KNOWN {{\"property\":\"{}\",\"check\":\"{}\",\"input\":\"{}\",\"detail\":\"{}\"}}", prop, esc(check), esc(&input), esc(&detail));
+        return;
+    }
+    fail(prop, check, input, detail)
+}
+fn c12_one(t: &str) {
+    let v = match vparse(t) { Ok(v) => v, Err(_) => return };
+    let p = v.to_string();
+    match vparse(&p) {
+        Err(e) => report("C12", "the printed form of a parsed version parses back", t.to_string(), format!("printed `{}` ({} bytes) is rejected: {}", if p.len() > 80 { &p[..80] } else { &p }, p.len(), e)),
+        Ok(w) => {
+            if w.major != v.major || w.minor != v.minor || w.patch != v.patch || w.pre_release != v.pre_release || w.build != v.build {
+                report("C12", "parse(print(v)) equals v in all five fields", t.to_string(), format!("printed `{}`, parsed back as {:?}, was {:?}", p, w, v));
+            }
+            if w.to_string() != p { report("C12", "the printed form is a fixed point", t.to_string(), format!("`{}` then `{}`", p, w)); }
+        }
+    }
+    match serde_json::to_string(&v) {
+        Err(e) => report("C12", "serde: a version serialises", t.to_string(), e.to_string()),
+        Ok(j) => {
+            if j != format!("\"{}\"", p) { report("C12", "serde: the JSON is exactly the printed string", t.to_string(), format!("json {} printed `{}`", j, p)); }
+            if p.len() <= 256 {
+                match serde_json::from_str::<Version>(&j) {
+                    Err(e) => report("C12", "serde: the JSON deserialises", t.to_string(), e.to_string()),
+                    Ok(w) => if w.major != v.major || w.minor != v.minor || w.patch != v.patch || w.pre_release != v.pre_release || w.build != v.build { report("C12", "serde round trip gives the same value", t.to_string(), format!("{:?} vs {:?}", w, v)) },
+                }
+            }
+        }
+    }
+}
+fn check_c12(level: u32, seed: u64) {
+    for t in ["1.2.3", "v1.2.3", "V 1.2.3 ", " 1.2.3", "01.002.0003", "1.2.3alpha", "1.2.3-alpha.1+build.5", "1.2.3--", "1.2.3---.-", "1.2.3+-", "1.2.3-01", "1.2.3-0a", "1.2.3-a0.00.0b", "1.2.3+001.1-1", "1.2.3-1e3", "1.2.3-0x10",
+              "900719925474099.900719925474099.900719925474099", "1.2.3-900719925474100", "1.2.3-18446744073709551615", "1.2.3-18446744073709551616", "1.2.3-00018446744073709551615", "1.2.3+99999999999999999999999999",
+              "1.2.3-A.a.B.b", "1.2.3-rc1.RC1", "0.0.0-0", "0.0.0+0", "1.2.3-a+b+c", "1.2.3+a-b", "1.2.3-a-b+c-d"] {
+        c12_one(t);
+    }
+    // lengths at the limit: hyphenated (printed = same length) and the one hyphen-less boundary input of the known finding
+    for n in [240usize, 249, 250] { c12_one(&format!("1.2.3-{}", "a".repeat(n))); c12_one(&format!("1.2.3+{}", "b".repeat(n))); c12_one(&format!("v 1.2.3-{}", "a.".repeat(n / 2 - 2) + "z")); }
+    c12_one(&format!("1.2.3{}", "a".repeat(250)));      // 255 bytes, hyphen-less: prints 256
+    c12_one(&format!("1.2.3{}", "a".repeat(251)));      // 256 bytes, hyphen-less: prints 257 (known finding)
+    c12_one(&format!("0000000001.2.3{}", "a".repeat(242)));
+    // every string up to length 4 after prefixes that make it parse
+    let alpha: Vec<char> = "10.-+aZ9".chars().collect();
+    let mut frontier: Vec<String> = vec![String::new()];
+    for _ in 0..(if level > 0 { 5 } else { 4 }) {
+        let mut next = Vec::with_capacity(frontier.len() * alpha.len());
+        for s in &frontier { for c in &alpha { let mut t = s.clone(); t.push(*c); next.push(t); } }
+        for s in &next { for p in ["1.2.", "1.2.3", "1.2.3-", "1.2.3-a", "1.2.3+", "1.2.3-a+b", "1.2.3-0."] { c12_one(&format!("{}{}", p, s)); } }
+        frontier = next;
+    }
+    // seeded canonical and loosely spelled versions
+    let mut r = Rng(seed.wrapping_mul(0x9E3779B97F4A7C15) ^ 0xC12);
+    for _ in 0..(if level > 0 { 200000 } else { 30000 }) {
+        let k = K { ma: gen_num(&mut r), mi: gen_num(&mut r), pa: gen_num(&mut r), pre: if r.below(2) == 0 { gen_pre(&mut r) } else { vec![] } };
+        let mut t = String::new();
+        if r.chance(10) { t.push(*r.pick(&['v', 'V'])); if r.chance(50) { t.push(' '); } }
+        t.push_str(&format!("{}.{}.{}", spell_num(&mut r, k.ma), spell_num(&mut r, k.mi), spell_num(&mut r, k.pa)));
+        if !k.pre.is_empty() { if r.chance(80) || matches!(k.pre[0], Id::N(_)) { t.push('-'); } t.push_str(&k.pre.iter().map(fmt_id).collect::<Vec<_>>().join(".")); }
+        if r.below(2) == 0 { t.push('+'); t.push_str(&gen_pre(&mut r).iter().map(fmt_id).collect::<Vec<_>>().join(".")); }
+        if r.chance(5) { t.push(' '); }
+        c12_one(&t);
+    }
+}
+
 fn main() {
     let args: Vec<String> = std::env::args().collect();
     let prop = args.get(1).map(|s| s.as_str()).unwrap_or("");
@@ -1187,6 +1258,7 @@ fn main() {
         "C01" | "C02" | "C03" => { check_npm(prop, level); check_npm_random(prop, seed, if level > 0 { 60000 } else { 6000 }); }
         "DUMP" => { dump_random(seed, 400); return; }
         "C05" => check_c05(level, seed),
+        "C12" => check_c12(level, seed),
         "C04" => check_c04(),
         "C16" => check_c16(),
         "C07" | "C08" | "C09" | "C10" | "C15" => check_setops(prop),
